@@ -82,6 +82,15 @@ register("C04",
          "Trusted: Coq kernel; Model/Sem.v, Model/Join.v, Model/Plan.v hand-written (tied by differential testing); sqlglot parse/print of filters as oracle; the C02 finding classes K1/K2 exempt the affected metric columns. No axioms.",
          "Coq proofs about 3VL filters and join-step pushdown; metamorphic + model/implementation correspondence", "DESIGN.md section 6/C04")
 
+register("C15",
+         "Machine-checked Coq: C15_sites, a generated obligation over the list of every iteration over a set-typed value in generator.py (re-extracted from the source on every run): none is order-sensitive and unsorted; "
+         "C15_order_free: iterating sorted(set) emits the same text for every permutation the set may hand its elements over in (String.leb proved a total order; sorted permutations are equal); "
+         "C15_history_free: after any history/interleaving of planning calls every path search reads the adjacency a fresh layer would build (C19 invariant). "
+         "Tied to the code by compiling a battery of multi-model queries in subprocesses under 8+ hash seeds, on fresh layers and after scrambled histories, comparing bytes, and comparing model_dump of all registered objects before/after. "
+         "Partial: purity of the real objects is observed, not proved; modules other than generator.py are covered by the byte comparison only.",
+         "Trusted: Coq kernel; gen_setiter.py scanner (types set-valued names syntactically) trusted to list every set iteration; CPython hash randomisation as the only source of set-order nondeterminism. No axioms.",
+         "Coq proof of permutation-invariance of sorted iteration + regenerated site obligation; multi-process byte comparison", "DESIGN.md section 6/C15")
+
 PENDING = "check not built yet in this revision (see DESIGN.md section 10 build order)"
 
 
